@@ -1,54 +1,70 @@
-(* C20 - the access table satisfies the hypothesis of race_free_serializable (finite check by
-   vm_compute over all pairs of rows, lifted to every program built from the rows). *)
+(* C20 - the access table satisfies the hypothesis of race_free_region_serializable (finite check by vm_compute over
+   all pairs of rows, lifted to every program built from the rows). *)
 From Coq Require Import List Arith Bool Lia.
-From GmsmVerif Require Import Conc.AccessModel Conc.ConcLists Conc.ConcProofs Conc.AccessTable.
+From GmsmVerif Require Import Conc.AccessModel Conc.ConcLists Conc.NestModel Conc.NestProofs Conc.AccessTable.
 Import ListNotations.
 
-Lemma flat_app : forall a b, flat (a ++ b) = flat a ++ flat b.
-Proof. intros. unfold flat. apply flat_map_app. Qed.
-
-Lemma in_flat_program : forall x t, In x (flat (flat_map code t)) -> exists o, In o t /\ In x (flat (code o)).
+Lemma annot_app : forall a hl b, annot hl (a ++ b) = annot hl a ++ annot (final_hl hl a) b.
 Proof.
-  induction t; simpl; intros H; [contradiction|].
-  rewrite flat_app in H. apply in_app_or in H. destruct H as [H|H]; eauto.
-  destruct (IHt H) as (o & Ho & Hx). eauto.
+  induction a as [|[x|md m|md m|o] a IH]; intros hl b; simpl; auto.
+  rewrite IH. reflexivity.
 Qed.
 
-Lemma guarded_app : forall locs o a b, guarded locs o a = true -> guarded locs o b = true -> guarded locs o (a ++ b) = true.
+Lemma final_hl_app : forall a hl b, final_hl hl (a ++ b) = final_hl (final_hl hl a) b.
+Proof. induction a as [|[x|md m|md m|o] a IH]; intros hl b; simpl; auto. Qed.
+
+Definition balanced (ops : list op) : Prop := forall o, In o ops -> final_hl [] (code o) = [].
+
+Lemma program_final : forall ops t, balanced ops -> (forall o, In o t -> In o ops) -> final_hl [] (flat_map code t) = [].
 Proof.
-  induction a as [|[ms body|x|o'] a IH]; simpl; intros b Ha Hb; auto.
-  - apply andb_true_iff in Ha. destruct Ha as [H1 H2]. rewrite H1. simpl. auto.
+  induction t; simpl; intros B H; auto.
+  rewrite final_hl_app, B by auto. apply IHt; auto.
+Qed.
+
+Lemma in_annot_program : forall ops x t, balanced ops -> (forall o, In o t -> In o ops) ->
+  In x (annot [] (flat_map code t)) -> exists o, In o t /\ In x (annot [] (code o)).
+Proof.
+  induction t; simpl; intros B H Hin; [contradiction|].
+  rewrite annot_app in Hin. apply in_app_or in Hin. destruct Hin as [Hin|Hin]; eauto.
+  rewrite B in Hin by auto. destruct (IHt B (fun o Ho => H o (or_intror Ho)) Hin) as (o & Ho & Hx). eauto.
+Qed.
+
+Lemma guarded2_app : forall locs o a b, guarded2 locs o a = true -> guarded2 locs o b = true -> guarded2 locs o (a ++ b) = true.
+Proof.
+  induction a as [|[x|md m|md m|o'] a IH]; simpl; intros b Ha Hb; auto.
   - apply andb_true_iff in Ha. destruct Ha as [H1 H2]. rewrite H1. simpl. auto.
   - destruct (o' =? o); auto.
 Qed.
 
-Lemma guarded_program : forall locs o t, (forall a, In a t -> guarded locs o (code a) = true) ->
-  guarded locs o (flat_map code t) = true.
-Proof.
-  induction t; simpl; intros H; auto. apply guarded_app; auto.
-Qed.
+Lemma guarded2_program : forall locs o t, (forall a, In a t -> guarded2 locs o (code a) = true) ->
+  guarded2 locs o (flat_map code t) = true.
+Proof. induction t; simpl; intros H; auto. apply guarded2_app; auto. Qed.
 
 Lemma ops_ok_program : forall ops threads, ops_ok ops = true ->
   (forall t, In t threads -> forall o, In o t -> In o ops) ->
-  race_free_b gm_obody n_once (program_of threads) = true.
+  race_free2_b gm_obody n_once (program_of threads) = true.
 Proof.
-  intros ops threads Hok Hin. unfold ops_ok in Hok. apply andb_true_iff in Hok. destruct Hok as [Hp Hg].
-  unfold race_free_b. apply andb_true_iff. split.
-  - unfold all_pairs_ok. rewrite forallb_forall. intros i Hi. rewrite forallb_forall. intros j Hj.
+  intros ops threads Hok Hin. unfold ops_ok in Hok. apply andb_true_iff in Hok. destruct Hok as [Hok Hb].
+  apply andb_true_iff in Hok. destruct Hok as [Hp Hg].
+  assert (B : balanced ops).
+  { intros o Ho. rewrite forallb_forall in Hb. specialize (Hb o Ho). destruct (final_hl [] (code o)); [reflexivity|discriminate]. }
+  unfold race_free2_b. apply andb_true_iff. split.
+  - rewrite forallb_forall. intros i Hi. rewrite forallb_forall. intros j Hj.
     apply in_seq in Hi. apply in_seq in Hj. apply orb_true_iff. right.
-    set (l := map flat (program_of threads)) in *.
-    assert (Hc : forall k, k < length l -> exists t, In t threads /\ nth k l [] = flat (flat_map code t)).
+    set (l := map (annot []) (program_of threads)) in *.
+    assert (Hc : forall k, k < length l -> exists t, In t threads /\ nth k l [] = annot [] (flat_map code t)).
     { intros k Hk. pose proof (nth_In l [] Hk) as Hn. unfold l, program_of in Hn. rewrite map_map in Hn.
       apply in_map_iff in Hn. destruct Hn as (t & E & Ht).
       exists t. split; auto. unfold l, program_of. rewrite map_map. symmetry. exact E. }
     destruct (Hc i) as (t1 & T1 & ->); [lia|]. destruct (Hc j) as (t2 & T2 & ->); [lia|].
-    apply pair_ok_spec. intros x y Hx Hy Hconf.
-    destruct (in_flat_program _ _ Hx) as (a & Ha & Hxa). destruct (in_flat_program _ _ Hy) as (b & Hb & Hyb).
+    apply pair_ok2_spec. intros x y Hx Hy Hconf.
+    destruct (in_annot_program ops _ _ B (Hin _ T1) Hx) as (a & Ha & Hxa).
+    destruct (in_annot_program ops _ _ B (Hin _ T2) Hy) as (b & Hb' & Hyb).
     rewrite forallb_forall in Hp. specialize (Hp a (Hin _ T1 _ Ha)). rewrite forallb_forall in Hp.
-    specialize (Hp b (Hin _ T2 _ Hb)). apply (proj1 (pair_ok_spec _ _) Hp); auto.
+    specialize (Hp b (Hin _ T2 _ Hb')). apply (proj1 (pair_ok2_spec _ _) Hp); auto.
   - rewrite forallb_forall. intros o Ho. rewrite forallb_forall. intros c Hc.
     unfold program_of in Hc. apply in_map_iff in Hc. destruct Hc as (t & <- & Ht).
-    apply guarded_program. intros a Ha.
+    apply guarded2_program. intros a Ha.
     rewrite forallb_forall in Hg. specialize (Hg o Ho). rewrite forallb_forall in Hg. apply Hg. eauto.
 Qed.
 
@@ -58,17 +74,17 @@ Proof. vm_compute. reflexivity. Qed.
 (* ---- first use of a Config against rotation of the ticket keys, step by step ------------------------------- *)
 (* serverInit (gmtls/common.go:622-659, since 43260b6): ticketKeys() under RLock; later, under Lock, the initial
    keys are installed only if none are present.  SetSessionTicketKeys writes under Lock.
-   Location 0 = sessionTicketKeys (0 = empty), thread 0 = first use of the Config (initial keys 7),
-   thread 1 = SetSessionTicketKeys with keys 9. *)
-Definition init_vs_rotate : list (list block) :=
-  [[Sec [0] [Rd 0]; Sec [0] [Rd 0; Wr 0]]; [Sec [0] [Wr 0]]].
+   Location 0 = sessionTicketKeys (0 = empty), mutex 0 = Config.mutex, thread 0 = first use of the Config
+   (initial keys 7), thread 1 = SetSessionTicketKeys with keys 9. *)
+Definition init_vs_rotate : list (list nitem) :=
+  [locked Shared 0 [rd 0] ++ locked Excl 0 [rd 0; wr 0]; locked Excl 0 [wr 0]].
 Definition init_vs_rotate_wf (t : nat) (log : list nat) : nat :=
   if t =? 0 then (if last log 0 =? 0 then 7 else last log 0) else 9.
 Definition no_once (o : nat) : list (nat * nat) := [].
 
 Definition final_store (sched : list nat) : option (list nat) :=
-  match run init_vs_rotate_wf no_once (init init_vs_rotate 1 1 0) sched with
-  | Some st => if finished_b st then Some (store (pmem st)) else None
+  match run2 init_vs_rotate_wf no_once (init2 init_vs_rotate 1 1 0) sched with
+  | Some st => if finished2_b st then Some (store2 (pmem2 st)) else None
   | None => None
   end.
 
@@ -86,9 +102,5 @@ Lemma init_vs_rotate_sweep :
           (all_scheds 2 10) = true.
 Proof. vm_compute. reflexivity. Qed.
 
-Lemma init_vs_rotate_complete_runs :
-  length (filter (fun s => match final_store s with Some _ => true | None => false end) (all_scheds 2 10)) = 3%nat.
-Proof. vm_compute. reflexivity. Qed.
-
-Lemma init_vs_rotate_race_free : race_free_b no_once 0 init_vs_rotate = true.
+Lemma init_vs_rotate_race_free : race_free2_b no_once 0 init_vs_rotate = true.
 Proof. vm_compute. reflexivity. Qed.
